@@ -1288,3 +1288,69 @@ def gen_xycoords_rounding():
            'def rows : List (String × String) := [' + ', '.join(f'("{a}", "{b_}")' for a, b_ in out_rows) + ']\n\n'
            'end PhotVerif.Gen.XyRounding\n')
     return 'XyRounding.lean', src_all, out
+
+# ---------------------------------------------------------------- squares of error maps are taken on float values (C15, C02, C07, C19)
+
+SQUARE_SCOPE = ['aperture/core.py', 'aperture/stats.py', 'segmentation/catalog.py', 'centroids/gaussian.py', 'utils/errors.py', 'profiles/core.py',
+                'profiles/radial_profile.py', 'profiles/curve_of_growth.py', 'psf/photometry.py', 'segmentation/detect.py']
+
+
+def gen_square_sites_table():
+    """every `X ** 2` whose operand is an error / uncertainty array handed in by the caller (text mentions err), with the way the operand
+    was made float beforehand: 'cast' = `X` is itself `<e>.astype(float)` (or float64) or a local name bound in the same function to an
+    expression containing such a cast; 'uncast' otherwise.  Squaring an integer-dtype error map in its own dtype wraps around."""
+    rows, src_all = [], ''
+    root = os.path.join(REPO, 'photutils')
+
+    def has_cast(e):
+        t = ast.unparse(e).replace(' ', '')
+        return any(m in t for m in ('astype(float)', 'astype(np.float64)', 'dtype=float)', 'dtype=np.float64)', 'np.float64('))
+    for rel in SQUARE_SCOPE:
+        f = os.path.join(root, rel)
+        if not os.path.exists(f):
+            continue
+        src = open(f).read()
+        src_all += src
+        t = ast.parse(src)
+        for fn in [n for n in ast.walk(t) if isinstance(n, (ast.FunctionDef, ast.AsyncFunctionDef))]:
+            binds = {}
+            for x in ast.walk(fn):
+                if isinstance(x, ast.Assign):
+                    for tg in x.targets:
+                        if isinstance(tg, ast.Name):
+                            binds.setdefault(tg.id, []).append(x.value)
+                        elif isinstance(tg, (ast.Tuple, ast.List)):
+                            for el in tg.elts:
+                                if isinstance(el, ast.Name):
+                                    binds.setdefault(el.id, []).append(x.value)
+            comp_iters = {g.target.id: ast.unparse(g.iter) for c_ in ast.walk(fn) if isinstance(c_, (ast.ListComp, ast.GeneratorExp, ast.SetComp))
+                          for g in c_.generators if isinstance(g.target, ast.Name)}
+            for x in ast.walk(fn):
+                if isinstance(x, ast.BinOp) and isinstance(x.op, ast.Pow) and isinstance(x.right, ast.Constant) and x.right.value == 2:
+                    base = x.left
+                    txt = ast.unparse(base)
+                    # an element of an error collection: `for arr in self._error_values` ... `arr ** 2`
+                    root_ = base
+                    while isinstance(root_, (ast.Call, ast.Attribute, ast.Subscript)):
+                        root_ = root_.func if isinstance(root_, ast.Call) else root_.value
+                    if isinstance(root_, ast.Name) and root_.id in comp_iters and 'err' in comp_iters[root_.id].lower():
+                        txt = f'{txt} for {root_.id} in {comp_iters[root_.id]}'
+                    if 'err' not in txt.lower() or 'gradient' in txt or any(w in txt for w in ('stddev', 'sigma')):
+                        continue
+                    if isinstance(base, ast.Constant) or txt.replace('_', '').replace('.', '').isdigit():
+                        continue
+                    cast = has_cast(base)
+                    if not cast and isinstance(base, ast.Name) and base.id in binds:
+                        cast = all(has_cast(v) for v in binds[base.id])
+                    rows.append((rel, fn.name, txt, cast))
+    rows = sorted(set(rows))
+    out = ('/- GENERATED by tools/extract_tables.py (squares of error arrays) '
+           f'(sha256/16 {sha(src_all)}). DO NOT EDIT. -/\n'
+           'import PhotVerif.Model.Prelude\nnamespace PhotVerif.Gen.SquareSites\n\n'
+           '/-- (file, function, squared operand, operand known to be a float64 copy) -/\n'
+           'def sites : List (String × String × String × Bool) :=\n  ['
+           + ',\n   '.join(f'("{a}", "{b_}", "{c}", {"true" if d else "false"})' for a, b_, c, d in rows) + ']\n\n'
+           '/-- the sites whose operand is not visibly cast in the same function -/\n'
+           'def uncast : List (String × String × String) := (sites.filter fun r => !r.2.2.2).map fun r => (r.1, r.2.1, r.2.2.1)\n\n'
+           'end PhotVerif.Gen.SquareSites\n')
+    return 'SquareSites.lean', src_all, out
